@@ -109,8 +109,9 @@ def run(ctx):
     ctx.note("fetch_size_seen_by_node", sorted(str(x) for x in rp.Env.get().page_sizes))
 
     # binding self-test (spec -> code): a wrong expectation must be noticed
-    victim = next([nodes[n] for n in w] for w in walks if len(nodes[w[-1]]["reqs"]) >= 2)
-    forged = [dict(s) for s in victim]
+    start = next(i for i in init if tuple(nodes[i]["layout"]) == (2, 2))
+    sw = _pg.follow(nodes, edges, start, [{"name": "Execute"}, {"name": "Iter"}] + [{"name": "Next"}] * 5)
+    forged = [dict(nodes[n]) for n in sw]
     forged[-1]["reqs"] = tuple(forged[-1]["reqs"][:-1]) + (forged[-1]["reqs"][-1] + 1,)
     try:
         noticed = rp.replay(forged) is not None
@@ -131,8 +132,6 @@ def run(ctx):
     good = len(traces)
     # binding self-test (code -> spec) on a trace synthesized from a specification behaviour, so that it does not depend
     # on the code under test: accepted as it is; rejected with a forged token, a dropped event, a wrong pure read
-    sw = next(w for w in walks if len(w) >= 7 and len(nodes[w[-1]]["reqs"]) >= 2 and
-              [nodes[n]["act"]["name"] for n in w[1:4]] == ["Execute", "Iter", "Next"] and nodes[w[3]]["act"]["out"])
     synth = rp.trace_of_states([nodes[n] for n in sw])
     bad1 = copy.deepcopy(synth)
     bad1[3]["post"]["reqs"] = bad1[3]["post"]["reqs"] + [7]
